@@ -399,6 +399,57 @@ impl Sess {
                 }
                 (line.to_string(), arch_str(&c.m))
             }
+            "spec.bw" | "spec.bset" | "spec.bd" | "spec.clamp" | "spec.tab" => {
+                let ws: Vec<&str> = line.split(' ').collect();
+                let r = match (head, ws.as_slice()) {
+                    ("spec.bw", [_, port, v]) => {
+                        let (port, v): (u8, u8) = (port.parse().unwrap_or(0), v.parse().unwrap_or(0));
+                        self.m.raw_mut().bus_mut().write(0xF0 + (port & 3), v);
+                        "ok".to_string()
+                    }
+                    ("spec.bset", [_, kind, v]) => {
+                        let n: u32 = v.parse().unwrap_or(0);
+                        match *kind {
+                            "di1" => self.m.set_digital_input1(n as u8),
+                            "temp" => self.m.set_temp(f32::from_bits(n)),
+                            "ai1" => self.m.set_analog_input1(f32::from_bits(n)),
+                            "ai2" => self.m.set_analog_input2(f32::from_bits(n)),
+                            "j1" => self.m.set_jumper1(n != 0),
+                            "j2" => self.m.set_jumper2(n != 0),
+                            "uio1" => self.m.set_universal_input_output1(n != 0),
+                            "uio2" => self.m.set_universal_input_output2(n != 0),
+                            "uio3" => self.m.set_universal_input_output3(n != 0),
+                            _ => return (line.to_string(), "bad-op".into()),
+                        }
+                        "ok".to_string()
+                    }
+                    ("spec.bd", _) => {
+                        let bus = self.m.bus();
+                        let bd = bus.board();
+                        format!(
+                            "dasr={} daisr={} di={} ao={},{} period={} in={},{},{}",
+                            hex2(bus.read(0xF1)), hex2(bus.read(0xF3)), hex2(bus.read(0xF0)),
+                            bd.analog_outputs()[0].to_bits(), bd.analog_outputs()[1].to_bits(), bus.read(0xF2),
+                            bd.temp().to_bits(), bd.analog_inputs()[0].to_bits(), bd.analog_inputs()[1].to_bits()
+                        )
+                    }
+                    ("spec.clamp", [_, v]) => {
+                        let n: u32 = v.parse().unwrap_or(0);
+                        let mut c = Machine::new(MachineConfig::default());
+                        c.set_temp(f32::from_bits(n));
+                        c.bus().board().temp().to_bits().to_string()
+                    }
+                    ("spec.tab", [_, v]) => {
+                        let b: u8 = v.parse().unwrap_or(0);
+                        let mut c = Machine::new(MachineConfig::default());
+                        c.raw_mut().bus_mut().write(0xF0, b);
+                        let bd = c.bus().board();
+                        format!("{} {} {}", bd.analog_outputs()[0].to_bits(), bd.fan_rpm(), c.bus().read(0xF2))
+                    }
+                    _ => "bad-op".to_string(),
+                };
+                (line.to_string(), r)
+            }
             "spec.nopanic" => (line.to_string(), if self.last_panicked { "panic".into() } else { "ok".into() }),
             _ => {
                 let r = self.apply(line);
